@@ -14,7 +14,7 @@ pub struct CfgSpec {
     pub rate: usize,
     pub cap: usize,
     pub nch: usize,
-    /// "std" 135/80, "wide" 234/120, "narrow" 68/30
+    /// "std" 135/80, "wide" 234/120, "narrow" 68/30, "r60" 135/60, "r37" 135/37
     pub width: String,
     pub q: usize,
     pub pow: u32,
@@ -37,6 +37,8 @@ impl CfgSpec {
         let (num_wires, num_routed_wires) = match self.width.as_str() {
             "wide" => (234, 120),
             "narrow" => (68, 30),
+            "r60" => (135, 60),
+            "r37" => (135, 37),
             _ => (135, 80),
         };
         CircuitConfig {
